@@ -140,4 +140,110 @@ theorem run_account (c : Cfg) (s : State) (es : List Env) :
       simp only [allReqs, reqsCost, List.flatMap_cons, List.map_append, List.sum_append]
       rw [Rat.add_assoc]
 
+/-- number of calls of a run prefix that found the run unfinished -/
+def activeCalls (c : Cfg) (s : State) : List Env → Nat
+  | [] => 0
+  | e :: es => (if isDone c s then 0 else 1) + activeCalls c (step c s e).1 es
+
+theorem run_round (c : Cfg) (s : State) (es : List Env) :
+    (run c s es).1.round = s.round + activeCalls c s es := by
+  induction es generalizing s with
+  | nil => rfl
+  | cons e es ih =>
+    rw [run_cons, ih, step_round, activeCalls]
+    split <;> omega
+
+/-- NaiveElimination: from a state with `round ≤ L` a run prefix of `n` calls leaves
+`round = min L (round + n)`, and every active call sampled all `K` designs. -/
+theorem naive_run (c : Cfg) (hc : c.alg = .naive) (s : State) (es : List Env)
+    (hle : s.round ≤ c.L) :
+    (run c s es).1.round = min c.L (s.round + es.length) ∧
+    (run c s es).1.sampleCount = s.sampleCount + c.K * ((run c s es).1.round - s.round) := by
+  induction es generalizing s with
+  | nil => simp [run_nil]; omega
+  | cons e es ih =>
+    rw [run_cons]
+    by_cases hd : s.round = c.L
+    · have hdone : isDone c s = true := by simp [isDone, hc, hd]
+      rw [step_of_done e hdone]
+      obtain ⟨i1, i2⟩ := ih s hle
+      simp only [List.length_cons]
+      refine ⟨by omega, i2⟩
+    · have hdone : isDone c s = false := by simp [isDone, hc, hd]
+      have hst : (step c s e).1 = account c s (allOf (List.range c.K)) := by
+        rw [step_of_not_done e hdone]; simp [active, hc, naiveActive]
+      rw [hst]
+      have hle' : (account c s (allOf (List.range c.K))).round ≤ c.L := by
+        simp only [account_round]; omega
+      obtain ⟨i1, i2⟩ := ih _ hle'
+      simp only [account_round, account_sampleCount, List.length_cons] at i1 i2 ⊢
+      refine ⟨by omega, ?_⟩
+      rw [i2]
+      simp only [allOf, List.length_map, List.length_range]
+      have h1 : 1 ≤ (run c (account c s (List.map (fun d => (d, none)) (List.range c.K))) es).1.round
+          - s.round := by
+        have := (run_round_le c (account c s (List.map (fun d => (d, none)) (List.range c.K))) es).1
+        simp only [account_round] at this
+        omega
+      have h2 : (run c (account c s (List.map (fun d => (d, none)) (List.range c.K))) es).1.round
+          - s.round = ((run c (account c s (List.map (fun d => (d, none)) (List.range c.K))) es).1.round
+          - (s.round + 1)) + 1 := by omega
+      rw [h2, Nat.mul_add]
+      omega
+
+/-! ### VOGP_AD -/
+
+theorem active_ad {c : Cfg} (hc : c.alg = .vogpAD) (s : State) (e : Env) :
+    active c s e = adActive c s e := by simp [active, hc]
+
+/-- One VOGP_AD call on a well-formed state: the node list only grows; candidates are old
+candidates or fresh nodes; a member of `P` stays unless it is the refined node, whose children
+are then all in `P`. -/
+theorem ad_step (c : Cfg) (s : State) (e : Env) (hw : WF c s) (hc : c.alg = .vogpAD) :
+    (∃ t, (step c s e).1.depths = s.depths ++ t) ∧
+    (∀ i ∈ (step c s e).1.S, i ∈ s.S ∨ s.depths.length ≤ i) ∧
+    (∀ p ∈ s.P, p ∈ (step c s e).1.P ∨
+      ((step c s e).2.refined = some p ∧ p ∉ (step c s e).1.S ∧
+        ∀ k ∈ childIds c s.depths.length, k ∈ (step c s e).1.P)) := by
+  cases h : isDone c s
+  · rw [step_of_not_done e h, active_ad hc]
+    have F := adActive_facts c s e hw hc
+    cases hr : (adActive c s e).refined with
+    | none =>
+      obtain ⟨T, hD⟩ := F.plain hr
+      exact ⟨⟨[], by simp [hD]⟩, fun i hi => Or.inl (T.sub.subset hi), fun p hp => Or.inl (T.keep p hp)⟩
+    | some d =>
+      obtain ⟨R, _⟩ := F.refine d hr
+      refine ⟨⟨_, R.depths_eq⟩, ?_, ?_⟩
+      · intro i hi
+        rcases R.S_from i hi with h1 | h1
+        · exact Or.inl h1
+        · exact Or.inr ((mem_childIds c _ i).mp h1).1
+      · intro p hp
+        rcases R.P_keep p hp with h1 | h1
+        · exact Or.inl h1
+        · subst h1
+          exact Or.inr ⟨rfl, R.notS, R.kidsP hp⟩
+  · rw [step_of_done e h]
+    exact ⟨⟨[], by simp⟩, fun i hi => Or.inl hi, fun p hp => Or.inl hp⟩
+
+/-- VOGP_AD, whole run: nodes are never forgotten and every candidate at the end is a candidate of
+the start or a node created during the run. -/
+theorem ad_run (c : Cfg) (s : State) (es : List Env) (hw : WF c s) (hc : c.alg = .vogpAD) :
+    (∃ t, (run c s es).1.depths = s.depths ++ t) ∧
+    (∀ i ∈ (run c s es).1.S, i ∈ s.S ∨ s.depths.length ≤ i) := by
+  have hel : c.alg.elim = true := by simp [hc, Alg.elim]
+  induction es generalizing s with
+  | nil => exact ⟨⟨[], by simp [run_nil]⟩, fun i hi => Or.inl hi⟩
+  | cons e es ih =>
+    rw [run_cons]
+    obtain ⟨⟨t1, h1⟩, h2, _⟩ := ad_step c s e hw hc
+    obtain ⟨⟨t2, h3⟩, h4⟩ := ih _ (wf_step c s e hw hel)
+    refine ⟨⟨t1 ++ t2, by rw [h3, h1, List.append_assoc]⟩, ?_⟩
+    intro i hi
+    rcases h4 i hi with h | h
+    · exact h2 i h
+    · rw [h1, List.length_append] at h
+      exact Or.inr (by omega)
+
 end VOPy.Run
